@@ -19,6 +19,29 @@ CHECKS = {
         'construction is covered by C08.',
         'DESIGN.md §4 C10',
     ),
+    'C16': (
+        'exploration',
+        'Hypothesis-generated classes with cached methods and call sequences (binding x spelling x control keyword) '
+        'against a dictionary model keyed by the type-strict canonical binding',
+        'Generated signatures (positional / defaulted / keyword-only), decorator forms, back-ends and call sequences '
+        'are run against a model that predicts for every call whether the method executes, with which arguments, what '
+        'is returned and how many entries exist. Sampled exploration; finds spelling-dependent keys, leaked ignored '
+        'arguments, shared entries, wrong control-keyword behaviour.',
+        'JSON-like argument values with string keys only; no *args/**kwargs signatures, no custom key functions.',
+        'DESIGN.md §4 C16',
+    ),
+    'C17': (
+        'exploration',
+        'Hypothesis-generated inputs plus a completion-order controller (the harness dictates which in-flight worker '
+        'finishes next); all completion orders enumerated for single chunks of <=5 elements; oracle = sequential map',
+        'The worker completion order is a generated input, so ordering bugs that real scheduling almost never shows '
+        '(workers finishing out of submission order) are produced in most cases; results, call counts and exception '
+        'propagation are compared with the sequential map, chunked with its specification. Exhaustive for one chunk of '
+        '<=5 elements, sampled beyond.',
+        'Completion order is controlled inside the mapped function; asyncio-internal scheduling is not. Calls are made '
+        'from the main thread.',
+        'DESIGN.md §4 C17',
+    ),
 }
 
 NOT_BUILT_REASON = 'check not built yet in this round (planned in DESIGN.md §4); not claimed until it runs'
